@@ -61,7 +61,7 @@ def fmt_case(draw, tier='quick'):
     labels = set(case['labels']) | {'gen:' + which}
     if which != 'level0' and draw(st.booleans()) and \
             all(c.get('like') is None for c in deck['cells']):
-        to_data_imp(deck, draw(st.integers(0, 3)))
+        to_data_imp(deck, draw(st.integers(0, 9)))
         labels.add('imp:data')
     spec = {k: draw(st.booleans()) for k in REWRITES}
     spec['num'] = draw(st.sampled_from([None, 'python', 'python', 'fortran']))
@@ -82,7 +82,7 @@ def to_data_imp(deck, pattern=0):
     seqs = [[1.0] * 64, [float(1 + q) for q in range(64)],
             [float(2 ** (q % 5)) for q in range(64)],
             [1.0, 1.0, 2.0, 3.0, 4.0, 4.0, 8.0, 16.0] * 8]
-    seq = seqs[pattern % len(seqs)]
+    seq = seqs[pattern % 5 % len(seqs)]
     k = 0
     for c in deck['cells']:
         imp = c.get('imp') or {'n': 1}
@@ -93,6 +93,21 @@ def to_data_imp(deck, pattern=0):
         vals.append(v)
         c['imp'] = None
         c.pop('imp_groups', None)
+    if pattern % 5 == 4:
+        # the non-zero cells before a zero-importance cell descend linearly
+        # to that zero (1, 2/3, 1/3, 0): an interpolation whose end point
+        # must be exactly zero
+        vals = [1.0 if v != 0 else 0.0 for v in vals]
+        z = 0
+        while z < len(vals):
+            if vals[z] == 0.0:
+                r = 0
+                while z - r - 1 >= 0 and vals[z - r - 1] != 0.0 and r < 9:
+                    r += 1
+                if r >= 2:
+                    for j in range(r):
+                        vals[z - r + j] = 1.0 - j / float(r)
+            z += 1
     deck['imp_cards'] = {'n': {'values': vals}}
 
 
